@@ -723,7 +723,7 @@ class ExprMixin:
             if base.s.pyside and base.s.kind == "pytuple" and ix[0] == "idx" and z3.is_int_value(ix[1].t):
                 res.append((s1, base.t[ix[1].t.as_long()]))
                 continue
-            if base.s == ANY or isinstance(base.s, Opaque):
+            if base.s == ANY or isinstance(base.s, Opaque) or base.s == GLOB:
                 exc.append((s1.copy(), exc_value("Exception*", node.lineno, "subscript of opaque value")))
                 res.append((s1, ANY.fresh("item")))
                 continue
